@@ -659,4 +659,139 @@ theorem dispatch_rot_mi (c : Model.X86.Ctx) (row : Row) (m : Mem) (v : BitVec 64
   have hne' : (v &&& 0xFF#64 == 1#64) = false := by simpa using hne
   simp [dispatch, henc, sig3, Op.kind, Op.rmSize, Op.immVal, h, hne']
 
+/-! ### class X86Test: `test MEM, imm` (F6 /0 ib, F7 /0 iw|id, REX.W F7 /0 id sign-extended): the alternative opcode of the row -/
+
+def testMiOpc (e : Entry) : BitVec 32 :=
+  let s := kindSize (e.kinds.getD 0 .none)
+  addArithBySize e.altOp s
+
+def entryOkTestMi (e : Entry) : Bool :=
+  match e.rule.ops, e.kinds with
+  | [f0, f3], [k0] =>
+    let s := kindSize k0
+    !anyMemAlt f0 ||
+    (e.enc == 0x3d && ((s == 1 || s == 2 || s == 4 || s == 8) && (legRuleMDOk e.rule (min s 4) ((testMiOpc e >>> 21) &&& 3#32).toNat ((e.altOp >>> 18) &&& 7#32).toNat &&
+    (legAgreeOk e.rule (testMiOpc e) && (testMiOpc e &&& 0xF780FC00#32 == 0#32 && (f0.role == .rm && (f3.role == .imm && (hasMemAlt f0 s &&
+    (immBitsOf f3 == 8 * min s 4 && (!immSignCase e.rule f3 || (s == 8 && e.rule.oszEff == 64)))))))))))
+  | _, _ => false
+
+theorem testmi_entries_ok : ltestmiChunks.all (fun c => c.all entryOkTestMi) = true := by decide +kernel
+theorem testmi_all_mem : ltestmiChunks.all (fun c => c.all (fun e => match e.rule.ops with | [f0, _] => anyMemAlt f0 | _ => true)) = true := by decide +kernel
+
+/-- **front_cls_correct, class X86Test, `test MEM, imm`**: memory operands of 1 / 2 / 4 / 8 bytes, every address form with an `AddrFormL`
+instance, every immediate (for a 64-bit destination: representable as a sign-extended imm32). -/
+theorem front_cls_correct_test_mi_mem (e : Entry) (ch : List Entry) (hch : ch ∈ ltestmiChunks) (he : e ∈ ch)
+    (c : Model.X86.Ctx) (ctx : Spec.X86.Ctx) (xb : BitVec 32) (m : Mem) (mo : MemOp) (pfx : List (BitVec 8))
+    (mb : BitVec 32 → BitVec 8) (sib : Option (BitVec 8)) (ds : List (BitVec 8))
+    (AF : AddrFormL c ctx m mo pfx xb mb sib ds) (v : BitVec 64) (hm64 : ctx.mode64 = true)
+    (hsize : mo.size = kindSize (e.kinds.getD 0 .none))
+    (himm : ∀ f3, e.rule.ops[1]? = some f3 → formOpMatches e.rule.oszEff f3 (.imm v) = true)
+    (hfit : kindSize (e.kinds.getD 0 .none) = 8 → isInt32of64 v = true) :
+    ∃ bytes k0, e.kinds = [k0] ∧ emitX86M c (testMiOpc e) 0#32 ((e.altOp >>> 18) &&& 7#32) m v (min (kindSize k0) 4) = .ok bytes ∧
+      formOk ctx e.rule [.mem mo, .imm v] {} bytes = true := by
+  have hok := mem_chunks_ok testmi_entries_ok e ch hch he
+  unfold entryOkTestMi at hok
+  split at hok
+  · rename_i f0 f3 k0 hops hkinds
+    have m3 : formOpMatches e.rule.oszEff f3 (.imm v) = true := himm f3 (by rw [hops]; rfl)
+    simp only [hkinds, List.getD_cons_zero] at hsize hfit
+    have hcases : anyMemAlt f0 = false ∨ anyMemAlt f0 = true := by cases anyMemAlt f0 <;> simp
+    simp only [Bool.and_eq_true, Bool.or_eq_true, beq_iff_eq, bne_iff_ne, ne_eq, Bool.not_eq_true', decide_eq_true_eq] at hok
+    rcases hok with hno | ⟨-, hs', hR, hA, hmask, ra, r3, hma, hnb, hscase⟩
+    · -- the generated chunk has a memory alternative in every entry (decided below)
+      exfalso
+      have hall := mem_chunks_ok testmi_all_mem e ch hch he
+      simp only [hops] at hall
+      rw [hno] at hall
+      exact absurd hall (by decide)
+    · obtain ⟨R, hmode⟩ := legRuleMDOk_spec _ _ _ _ hR
+      have A := (legAgreeOk_spec _ _ hA).1
+      have hs : kindSize k0 = 1 ∨ kindSize k0 = 2 ∨ kindSize k0 = 4 ∨ kindSize k0 = 8 := by omega
+      have hal : alignOps e.rule.oszEff e.rule.ops [.mem mo, .imm v] = some [(f0, some (.mem mo)), (f3, some (.imm v))] := by
+        rw [hops]
+        exact alignOps2 _ _ _ _ _ (hasMemAlt_matches _ _ _ _ hma hsize AF.hvsib) m3
+      have hn : immBytesOf (immBitsOf f3) = min (kindSize k0) 4 := by
+        rw [hnb]; rcases hs with h | h | h | h <;> rw [h] <;> decide
+      have hn4 : immBitsOf f3 ≠ 4 := by rw [hnb]; rcases hs with h | h | h | h <;> rw [h] <;> decide
+      obtain ⟨bytes, hb, hf⟩ := legM_mi_formOk c ctx e.rule (testMiOpc e) ((e.altOp >>> 18) &&& 7#32) xb m mo pfx mb sib ds AF f0 f3 ((e.altOp >>> 18) &&& 7#32).toNat v v (min (kindSize k0) 4) hm64 hmode hmask
+        (by bv_decide) R (by intro _; rfl) A ra (by
+          intro p hp
+          refine immConds_ok ctx e.rule p f3 v r3 hn4 R.hrev ?_
+          rw [hn, hp, take_emitImmediate]
+          have hsc : (immSignOf f3 == 1 && e.rule.oszEff != 0 && decide (8 * min (kindSize k0) 4 < e.rule.oszEff)) = immSignCase e.rule f3 := by
+            simp [immSignCase, hn]
+          rw [hsc]
+          rcases hscase with hsf | ⟨hs8, hosz⟩
+          · rw [hsf]; simp [emitImmediate_leBytes]
+          · cases hsc2 : immSignCase e.rule f3
+            · simp [emitImmediate_leBytes]
+            · simp only [↓reduceIte, decide_eq_true_eq]
+              simp only [hs8, hosz, show min 8 4 = 4 from rfl]
+              rw [emitImmediate_leBytes, leNat_leBytes4]
+              have := sext32_mod v (hfit hs8)
+              simpa using this) hal
+      exact ⟨bytes, k0, hkinds, hb, hf⟩
+  · simp at hok
+
+theorem dispatch_test_mi (c : Model.X86.Ctx) (row : Row) (m : Mem) (v : BitVec 64) (henc : row.encoding = 0x3d) (hsz : m.size ≠ 0) :
+    dispatch c row 0#32 (.mem m) (.imm v) .none .none =
+      emitX86M c (addArithBySize row.altOp m.size) 0#32 ((row.altOp >>> 18) &&& 7#32) m v (min m.size 4) := by
+  have h : (m.size == 0) = false := by simpa using hsz
+  simp [dispatch, henc, sig3, Op.kind, Op.rmSize, Op.immVal, h]
+
+/-! ### class X86Rot: `op MEM, cl` (D2|D3 /d) and `op MEM, 1` (D0|D1 /d) -/
+
+def entryOkRotXMem (e : Entry) : Bool :=
+  match e.rule.ops, e.kinds with
+  | [f0, f1], [k0] =>
+    !anyMemAlt f0 ||
+    (e.enc == 0x37 && (legRuleMDOk e.rule 0 ((rotXOpc e >>> 21) &&& 3#32).toNat (digitOf e).toNat && (legAgreeOk e.rule (rotXOpc e) &&
+    (rotXOpc e &&& 0xF780FC00#32 == 0#32 && (f0.role == .rm && (f1.role == .none && hasMemAlt f0 (kindSize k0)))))))
+  | _, _ => false
+
+theorem rotx_mem_entries_ok : lrotxChunks.all (fun c => c.all entryOkRotXMem) = true := by decide +kernel
+
+/-- **front_cls_correct, class X86Rot, `op MEM, cl` and `op MEM, 1`**: memory operands of 1 / 2 / 4 / 8 bytes, every address form with an
+`AddrFormL` instance; the second operand is whatever the form's fixed operand admits and is not encoded. -/
+theorem front_cls_correct_rot_x_mem (e : Entry) (ch : List Entry) (hch : ch ∈ lrotxChunks) (he : e ∈ ch)
+    (c : Model.X86.Ctx) (ctx : Spec.X86.Ctx) (xb : BitVec 32) (m : Mem) (mo : MemOp) (pfx : List (BitVec 8))
+    (mb : BitVec 32 → BitVec 8) (sib : Option (BitVec 8)) (ds : List (BitVec 8))
+    (AF : AddrFormL c ctx m mo pfx xb mb sib ds) (o1 : Operand) (imm : BitVec 64) (hm64 : ctx.mode64 = true)
+    (hsize : mo.size = kindSize (e.kinds.getD 0 .none))
+    (hmem : ∀ f0, e.rule.ops[0]? = some f0 → anyMemAlt f0 = true)
+    (ho1 : (∃ v, o1 = .imm v) ∨ (∃ k i, o1 = .reg k i))
+    (hm1 : ∀ f1, e.rule.ops[1]? = some f1 → formOpMatches e.rule.oszEff f1 o1 = true) :
+    ∃ bytes, emitX86M c (rotXOpc e) 0#32 (digitOf e) m imm 0 = .ok bytes ∧ formOk ctx e.rule [.mem mo, o1] {} bytes = true := by
+  have hok := mem_chunks_ok rotx_mem_entries_ok e ch hch he
+  unfold entryOkRotXMem at hok
+  split at hok
+  · rename_i f0 f1 k0 hops hkinds
+    have m1 : formOpMatches e.rule.oszEff f1 o1 = true := hm1 f1 (by rw [hops]; rfl)
+    have hma0 := hmem f0 (by rw [hops]; rfl)
+    simp only [hkinds, List.getD_cons_zero] at hsize
+    simp only [hma0, Bool.not_true, Bool.false_or, Bool.and_eq_true, beq_iff_eq] at hok
+    obtain ⟨-, hR, hA, hmask, ra, r1, hma⟩ := hok
+    obtain ⟨R, hmode⟩ := legRuleMDOk_spec _ _ _ _ hR
+    have A := (legAgreeOk_spec _ _ hA).1
+    have hal : alignOps e.rule.oszEff e.rule.ops [.mem mo, o1] = some [(f0, some (.mem mo)), (f1, some o1)] := by
+      rw [hops]
+      exact alignOps2 _ _ _ _ _ (hasMemAlt_matches _ _ _ _ hma hsize AF.hvsib) m1
+    have hd : digitOf e < 8#32 := by simp only [digitOf]; bv_decide
+    rcases ho1 with ⟨v, rfl⟩ | ⟨k, i, rfl⟩
+    · exact legM_mi_formOk c ctx e.rule (rotXOpc e) (digitOf e) xb m mo pfx mb sib ds AF f0 f1 (digitOf e).toNat v imm 0 hm64 hmode hmask
+        hd R (by intro _; rfl) A ra (by intro p _; simp [opConds, r1, allOk]) hal
+    · exact legM_mreg_formOk c ctx e.rule (rotXOpc e) (digitOf e) xb m mo pfx mb sib ds AF f0 f1 (digitOf e).toNat k i imm 0 hm64 hmode hmask
+        hd R (by intro _; rfl) A ra (by intro p _; simp [opConds, r1, allOk]) hal
+  · simp at hok
+
+theorem dispatch_rot_x_mem (c : Model.X86.Ctx) (row : Row) (m : Mem) (v : BitVec 64) (henc : row.encoding = 0x37) (hsz : m.size ≠ 0) :
+    dispatch c row 0#32 (.mem m) (.reg (rtypeOf .gpb) 1) .none .none =
+      emitX86M c (addArithBySize row.mainOp m.size + 2#32) 0#32 ((row.mainOp >>> 18) &&& 7#32) m 0 0 ∧
+    (v &&& 0xFF#64 = 1#64 → dispatch c row 0#32 (.mem m) (.imm v) .none .none =
+      emitX86M c (addArithBySize row.mainOp m.size) 0#32 ((row.mainOp >>> 18) &&& 7#32) m (v &&& 0xFF#64) 0) := by
+  have h : (m.size == 0) = false := by simpa using hsz
+  refine ⟨?_, fun h1 => ?_⟩
+  · simp [dispatch, henc, sig3, Op.kind, Op.id, Op.rmSize, rtypeOf, h]
+  · simp [dispatch, henc, sig3, Op.kind, Op.rmSize, Op.immVal, h, h1, oLongForm]
+
 end AsmjitVerif.Props.C01
